@@ -6,10 +6,10 @@ from . import tlc, pipeline_common as pc, gen as G, enc as E
 XSI = 'http://www.w3.org/2001/XMLSchema-instance'
 
 
-def export(ctx):
-    out = os.path.join(ctx.work, 'signature_cases.json')
+def export(ctx, family='cases'):
+    out = os.path.join(ctx.work, 'signature_%s.json' % family)
     cfg = pc.write_cfg(os.path.join(ctx.work, 'exps.cfg'), ['INIT Init', 'NEXT Next', 'CHECK_DEADLOCK FALSE'])
-    tlc.run('ExportSignatures', cfg, ctx.work, env={'OUT_FILE': out})
+    tlc.run('ExportSignatures', cfg, ctx.work, env={'OUT_FILE': out, 'FAMILY': family})
     d = json.load(open(out))
     d.sort(key=lambda c: json.dumps(c, sort_keys=True))
     return d
@@ -31,6 +31,8 @@ def texpr(t, f=None):
         out = {'k': 'arr', 'of': texpr(t['of'])}
     elif k == 'attr':
         out = {'k': 'attr', 'of': texpr(t['of'])}
+    elif k == 'any':
+        out = {'k': 'any'}
     else:
         raise ValueError(t)
     if f is not None and 'sub' in f:
@@ -121,6 +123,8 @@ def to_wire_value(t, v):
         return E.Raw(v[1]) if t['p'] == 'Duration' else leaf_native(t['p'], v[1])
     if k == 'attr':
         return leaf_native(t['of']['p'], v[1])
+    if k == 'any':
+        return E.XmlTree(v[1])
     if k == 'arr':
         return [to_wire_value(t['of'], x) for x in v[1]]
     if k == 'obj':
@@ -146,6 +150,9 @@ def to_instance(gen, t, v, texp=None, memo=None):
         return ([x[:1], x[1:]] if len(x) >= 2 else [x]) if t['p'] == 'ByteArray' else x
     if k == 'attr':
         return leaf_native(t['of']['p'], v[1])
+    if k == 'any':
+        from lxml import etree
+        return etree.fromstring(E.TREES[v[1]])
     if k == 'arr':
         return [to_instance(gen, t['of'], x, memo=memo) for x in v[1]]
     if k == 'obj':
@@ -175,6 +182,8 @@ def from_native(t, x, repeated=False):
             return ['leaf', '?%s' % type(x).__name__]
     if k == 'attr':
         return from_native(t['of'], x)
+    if k == 'any':
+        return ['xml', tree_name(x)]
     if k == 'arr':
         try:
             return ['seq', [from_native(t['of'], y) for y in x]]
@@ -194,10 +203,24 @@ def from_native(t, x, repeated=False):
     raise ValueError(t)
 
 
-def tokens(body):
-    """XML bytes -> token list of SpyneXmlDoc"""
+def tree_name(x):
+    """an XML tree handed to user code / decoded by a client -> the name SpyneXmlDoc.TreeToks knows it by (compared as tokens: what
+    its type markers denote is part of it)"""
     from lxml import etree
-    root = etree.fromstring(body)
+    try:
+        got = tokens(x if hasattr(x, 'tag') else etree.fromstring(x))
+    except Exception as e:
+        return '?%s' % type(x).__name__
+    for n, text in E.TREES.items():
+        if tokens(text.encode()) == got:
+            return n
+    return '?tree:%s' % json.dumps(got)[:200]
+
+
+def tokens(body):
+    """XML bytes (or an element) -> token list of SpyneXmlDoc"""
+    from lxml import etree
+    root = body if hasattr(body, 'tag') else etree.fromstring(body)
     out = []
 
     def walk(e):
@@ -238,6 +261,8 @@ def to_raw_value(t, v):
         return [to_raw_value(t, x) for x in v[1]]
     if k in ('prim', 'attr'):
         return E.Raw(v[1])
+    if k == 'any':
+        return E.XmlTree(v[1])
     if k == 'arr':
         return [to_raw_value(t['of'], x) for x in v[1]]
     if k == 'obj':
